@@ -131,6 +131,16 @@ func VerifC01Race() {
 			}
 		}
 	}
+	// (C02) the header revision of a response is never below the revision of the kv it carries —
+	// also for a request refused because a concurrent writer won
+	for _, r := range reqs {
+		if !r.err && r.kv != nil {
+			zzverif.Assert(r.rev >= r.kv.Revision, "response header revision >= revision of the returned kv")
+			if !r.ok {
+				zzverif.Cover("refused-with-kv")
+			}
+		}
+	}
 	// (a)+(b): the successes, in revision order, form a chain under the reference semantics
 	g := g0.Clone()
 	done := make([]bool, n)
